@@ -22,7 +22,7 @@ TABLE = {
 }
 
 T_STATE = T_GLOBAL + [
-    'T4 user objects: identity __eq__/__hash__/default truthiness; __events__ mappings not mutated while registered; instance attributes do not shadow callback names',
+    'T4 user objects: identity __hash__/__eq__ where containers hash or compare them (handlers behind weak references, generators in sets); == between components/processors in the analysed code is uninterpreted, as is the truthiness of components, processors, resources and handles; __events__ mappings not mutated while registered; instance attributes do not shadow callback names',
     'T5 open calls (callbacks) touch verified objects only through public operations (rely), at listed sites they do not re-enter',
 ]
 
